@@ -304,13 +304,17 @@ Proof.
   - split; [intros H; injection H as <-; auto | intros [_ ->]; reflexivity].
 Qed.
 
+Lemma no_err_cut m : no_err (cut_at_length m).
+Proof. unfold cut_at_length. apply no_err_bind; [apply no_err_reslice | intros; apply no_err_ok]. Qed.
+
 Lemma mi_refuses_iff hst m key e :
   mi_add hst m key = Err e <->
   (existsb (fun a => a_type a =? AttrFingerprint) (m_attrs m) = true /\ e = E_FP_BEFORE_MI).
 Proof.
-  unfold mi_add. destruct (existsb _ (m_attrs m)).
+  unfold mi_add, mi_add_gen. destruct (existsb _ (m_attrs m)).
   - split; [intros H; injection H as <-; auto | intros [_ ->]; reflexivity].
   - split; [|intros [H _]; discriminate]. intros H. exfalso. revert H.
+    apply no_err_bind; [apply no_err_cut|]. intros m0.
     apply no_err_bind; [apply no_err_write_length|]. intros m1.
     rewrite new_hmac_sha1_spec. cbn [bind]. apply add_never_refuses.
 Qed.
